@@ -4,6 +4,7 @@ import (
 	"fmt"
 	"strings"
 
+	"github.com/NethermindEth/juno/core"
 	"github.com/NethermindEth/juno/core/felt"
 
 	"jsim/chaingen"
@@ -134,6 +135,18 @@ func short(f interface{ String() string }) string {
 	return s
 }
 
+// heldView is a historical state view kept open across later operations.
+type heldView struct {
+	node    int
+	on      *Node
+	num     int
+	hash    *felt.Felt
+	wasHead bool
+	name    string
+	r       core.StateReader
+	closer  func() error
+}
+
 // C03: head and historical state reads equal the state as of the requested block.
 func C03(c *sim.Ctx) {
 	p := newPair(c, true)
@@ -142,8 +155,21 @@ func C03(c *sim.Ctx) {
 	maxBlocks := 4 + t.Draw("max.blocks", 9)
 	steps := 6 + t.Draw("steps", 20)
 	reverts, restarts := 0, 0
+	var held []*heldView
+	defer func() {
+		for _, h := range held {
+			_ = h.closer()
+		}
+	}()
 	for s := 0; s < steps; s++ {
 		op := t.Draw("op", 10)
+		if op > 7 && len(p.m.Chain) != 0 {
+			// a restart closes the database under every open view
+			for _, h := range held {
+				_ = h.closer()
+			}
+			held = nil
+		}
 		switch {
 		case op <= 5 || len(p.m.Chain) == 0:
 			if len(p.m.Chain) >= maxBlocks {
@@ -160,12 +186,54 @@ func C03(c *sim.Ctx) {
 			p.restart(t.Draw("restart.node", len(p.nodes)), t.Draw("restart.graceful", 2) == 1)
 			restarts++
 		}
-		for _, n := range p.nodes {
+		// views taken at an earlier quiescent point and kept open: as long as their block is still in the
+		// chain they are reads "at that block" whatever was stored on top meanwhile
+		kept := held[:0]
+		for _, h := range held {
+			if h.num < len(p.m.Chain) && p.m.Chain[h.num].B.Hash.Equal(h.hash) && p.nodes[h.node] == h.on {
+				k := &checker{n: h.on, m: p.m}
+				k.checkReaders(p.m.Chain[h.num], map[string]core.StateReader{h.name: h.r}, p.d.g)
+				c.Probe("held_view_read_again")
+				if h.num < len(p.m.Chain)-1 && h.wasHead {
+					c.Probe("held_view_of_former_head_read_after_head_advanced")
+				}
+				kept = append(kept, h)
+			} else {
+				_ = h.closer()
+			}
+		}
+		held = kept
+		for ni, n := range p.nodes {
 			k := &checker{n: n, m: p.m}
 			k.CheckHead()
 			k.CheckAbsent()
 			if len(p.m.Chain) == 0 {
 				continue
+			}
+			if len(held) < 3 && t.Chance("hold.view", 1, 4) {
+				// biased to the head: a view of the head block that outlives the head
+				last := len(p.m.Chain) - 1
+				num := last
+				if t.Chance("hold.older", 1, 3) {
+					num = t.Draw("hold.block", last+1)
+				}
+				hb := p.m.Chain[num]
+				hv := &heldView{node: ni, on: n, num: num, hash: hb.B.Hash, wasHead: num == last}
+				var err error
+				if t.Chance("hold.byhash", 1, 2) {
+					hv.name = "HeldStateAtBlockHash"
+					hv.r, hv.closer, err = n.BC.StateAtBlockHash(hb.B.Hash)
+				} else {
+					hv.name = "HeldStateAtBlockNumber"
+					hv.r, hv.closer, err = n.BC.StateAtBlockNumber(hb.B.Number)
+				}
+				if err != nil {
+					k.fail("state", "StateAtBlock_for_held_view", "state view of block %d: %v", hb.B.Number, err)
+				}
+				c.Logf("hold a view of block %d on node %s (%s)", hb.B.Number, n.Name, hv.name)
+				// used once right away (a view is typically read more than once)
+				k.checkReaders(hb, map[string]core.StateReader{hv.name: hv.r}, p.d.g)
+				held = append(held, hv)
 			}
 			k.CheckRoot()
 			last := len(p.m.Chain) - 1
